@@ -47,7 +47,8 @@ func (c *Correctable) Watch(level int) <-chan struct{} {
 	ch := make(chan struct{})
 	c.mu.Lock()
 	defer c.mu.Unlock()
-	if level <= c.level {
+	if level <= c.level || c.done {
+		// the level has been reached, or the call is completed and no higher level will be
 		close(ch)
 		return ch
 	}
@@ -117,7 +118,7 @@ func (c RawConfiguration) CorrectableCall(ctx context.Context, d CorrectableCall
 		n.channel.enqueue(request{ctx: ctx, msg: &Message{Metadata: md, Message: msg}}, replyChan, d.ServerStream)
 	}
 
-	corr := &Correctable{donech: make(chan struct{}, 1)}
+	corr := &Correctable{level: LevelNotSet, donech: make(chan struct{}, 1)}
 
 	go c.handleCorrectableCall(ctx, corr, correctableCallState{
 		md:              md,
@@ -159,14 +160,16 @@ func (c RawConfiguration) handleCorrectableCall(ctx context.Context, corr *Corre
 			}
 			replies[r.nid] = r.msg
 			if resp, rlevel, quorum = state.data.QuorumFunction(state.data.Message, replies); quorum {
-				if quorum {
-					corr.set(r.msg, rlevel, nil, true)
-					return
+				if rlevel < clevel {
+					// published levels never decrease
+					rlevel = clevel
 				}
-				if rlevel > clevel {
-					clevel = rlevel
-					corr.set(r.msg, rlevel, nil, false)
-				}
+				corr.set(resp, rlevel, nil, true)
+				return
+			}
+			if rlevel > clevel {
+				clevel = rlevel
+				corr.set(resp, rlevel, nil, false)
 			}
 		case <-ctx.Done():
 			corr.set(resp, clevel, QuorumCallError{cause: ctx.Err(), errors: errs, replies: len(replies)}, true)
